@@ -48,11 +48,10 @@ PROPS["C07"] = dict(
         "then exact) and within 1e-9 relative otherwise, because merged intervals add in a different order",
         "finding C07-int64-boundary-rounding (an int64 value above 2^53 whose double image rounds DOWN onto a boundary) is "
         "fixed in /repo (4238e2f); the shape is generated and the reference places it by exact comparison",
-        "OPEN known finding C07-u64-above-int64-max: Histogram<uint64_t>::Record with a value above INT64_MAX is re-shaped "
-        "into 0 and counted in excluded_for_known_findings while the finding is listed as open; were it not excluded the "
-        "oracle would accept exactly one outcome: the value is not recorded (HistogramPointData holds int64 sum/min/max and "
-        "cannot contain it; DoubleHistogram::Record treats negative values the same way). A repair that saturates instead "
-        "of dropping would need this oracle revisited.",
+        "finding C07-u64-above-int64-max (Histogram<uint64_t>::Record with a value above INT64_MAX was recorded as a negative "
+        "number) is fixed in /repo (ca8a659: the value is refused with a warning, as DoubleHistogram::Record refuses a negative "
+        "one); the shape is generated and the oracle accepts exactly one outcome: the value is not recorded (HistogramPointData "
+        "holds int64 sum/min/max and cannot contain it). A repair that saturates instead of dropping would need this oracle revisited.",
         "min/max are asserted when the point carries record_min_max_ and count > 0; with min/max enabled by the "
         "configuration the point must carry them (also on a fresh, empty aggregation: configuration echo)",
         "Diff is asserted for bucket counts and count only (documented as next - current); the property text does "
@@ -71,7 +70,7 @@ PROPS["C07"] = dict(
         run("hist-sched", "c07_sched", "hist_sched", "rc", dict(procs=3, cases=15000), dict(procs=6, cases=200000), asan_extra=SCHED_ASAN),
         run("agg-double", "c07_rc", "agg_double", "rc", dict(procs=4, cases=30000), dict(procs=5, cases=500000)),
         run("agg-long", "c07_rc", "agg_long", "rc", dict(procs=4, cases=30000), dict(procs=5, cases=500000)),
-        # fixed witness of the open known finding C07-u64-above-int64-max: replay only (known/C07/), no search budget
+        # fixed case of the repaired finding C07-u64-above-int64-max: replay only (replays/C07/), no search budget
         run("u64-wrap-witness", "c07_rc", "u64_wrap_witness", "rc", None, None),
         run("meter-cycles", "c07_rc", "meter_cycles", "rc", dict(procs=6, cases=10000), dict(procs=6, cases=200000)),
         run("meter-cycles-abi2", "c07_rc_abi2", "meter_cycles_abi2", "rc", dict(procs=2, cases=6000),
